@@ -1197,7 +1197,7 @@ func weave(sc *scenario, rnd *rand.Rand, key *dagx.Key, built []dag.Transaction,
 		case "prev-later":
 			insert(step{Op: "rej", Tx: i, Kind: kind}, pos("add", 0)+1, pos("add", maxPrev(i)))
 		case "wp-store-fault":
-			insert(step{Op: "rej", Tx: i, Kind: kind, N: rnd.Intn(2)}, pos("add", i)+1, pos("wp", i))
+			insert(step{Op: "rej", Tx: i, Kind: kind, N: rnd.Intn(3)}, pos("add", i)+1, pos("wp", i))
 		case "store-fault":
 			insert(step{Op: "rej", Tx: i, Kind: kind, N: rnd.Intn(4)}, pos("add", maxPrev(i))+1, pos("add", i))
 		default:
@@ -2190,6 +2190,9 @@ func TestCheck(t *testing.T) {
 		}
 		jobs = sel
 	}
+	// second workload: single store faults at every position inside the admission writes (faultmatrix_test.go), in this process
+	runFaultMatrix(r)
+
 	results := make([]*caseResult, len(jobs))
 	sem := make(chan struct{}, 12)
 	var wg sync.WaitGroup
